@@ -233,9 +233,9 @@ Proof.
   match type of M6 with moves _ ?t _ _ _ =>
     pose proof (mv_bump t k (next s) _ (fun n : counters => n <| n_lock := (n_lock n + 1)%Z |> <| n_locked := (n_locked n + 1)%Z |>) (proj1 M6)) as M7 end.
   match type of M7 with moves _ ?t _ _ _ => set (s7 := t) in * end.
+  Show. rewrite G0. cbn [m_waited new_mgr set].
   unfold finish.
-  match type of M7 with moves _ _ _ _ {| v_m := _; v_l := Some ?lf; v_q := _ |} => eexists s7, _, cur2, lf end.
-  split; [reflexivity|].
+  eexists s7, _, cur2, _. split; [reflexivity|].
   split; [reflexivity|].
   split.
   { cbn [app find_reply reply]. cbn [c_req c kvc]. unfold the_conn. rewrite !N.eqb_refl. cbn [andb].
